@@ -20,7 +20,7 @@ func main() {
 		}
 	}
 	r := vkit.Start(level)
-	r.Assume("peer = Go crypto/tls client of this toolchain (TLS1.0-1.2, no SSLv3, no session-id resumption) plus hand-written ClientHellos; SSLv3 is only observed up to the ServerHello")
+	r.Assume("peer = Go crypto/tls client of this toolchain (TLS1.0-1.2, no SSLv3, no session-id resumption) plus hand-written ClientHellos; SSLv3 is only observed up to the ServerHello, except in C42, which drives complete SSLv3 connections (RSA key exchange) with the harness's own RFC 6101 client (c42ssl3.go)")
 	r.Assume("server certificates: one RSA-2048 and one ECDSA P-256, generated at run time; transport is an in-memory buffered pipe (no TCP)")
 	switch r.Prop {
 	case "C41":
